@@ -13,7 +13,7 @@ META = {
              "ranges (bottom radius 0.2..2, ratio 0.3..1, spacings 5..40 deg, thickness <= 10% radius, min leg 0.8..1.5 radii, stroke "
              "1.5..2x, both handedness values), random base poses; optionally moved to another base and/or re-spun at the neutral "
              "pose.  Per platform: published joints vs the parametric description; IK on arbitrary plate-pose pairs vs joint "
-             "distances; invariance under a common rigid motion; for relative poses inside the workspace that are accepted "
+             "distances (protected, and unprotected where the platform then corrects itself: what IK returns stays the geometry); invariance under a common rigid motion; for relative poses inside the workspace that are accepted "
              "without corrective action: reset to neutral, FK(lengths) with both solvers must recover pose and lengths to 1e-3 h.  "
              "Non-trivial: the relative pose has both a lateral offset and a rotation; distinct by quantised (geometry, pose)."),
     "assumptions": ["'accepted without corrective action' is decided from observables: valid flag, empty validation_error, published top "
@@ -22,7 +22,8 @@ META = {
                     "rotation recovered to 1e-3 rad, position and lengths to 1e-3 of the neutral height"],
 }
 REQUIRED_REACH = ['kinematics/sp_model.py:SP.IK', 'kinematics/sp_model.py:SP.FK', 'kinematics/sp_model.py:SP.spinCustom', 'kinematics/sp_model.py:SP.move', 'kinematics/sp_model.py:newSP', 'kinematics/sp_model.py:loadSP']
-REQUIRED_CLAUSES = ["geometry", "ik.lengths", "ik.invariance", "ik.published_joints", "fk.recover.mode0", "fk.recover.mode1", "fk.after_move", "fk.after_spin"]
+REQUIRED_CLASSES = ["unprotected_ik:corrected"]
+REQUIRED_CLAUSES = ["geometry", "ik.lengths", "ik.unprotected", "ik.invariance", "ik.published_joints", "fk.recover.mode0", "fk.recover.mode1", "fk.after_move", "fk.after_spin"]
 
 
 def plan(tier, seed):
@@ -123,6 +124,13 @@ def run_case(case, ctx, bm):
             pubB, pubT = np.asarray(sp.getBottomJoints()).copy(), np.asarray(sp.getTopJoints()).copy()
             L2, _ = sp.IK(top_plate_pos=tm(D @ Tp), bottom_plate_pos=tm(D @ Bp), protect=True)
             L2 = np.asarray(L2, dtype=float).reshape(-1)
+            # the same request without protection: the platform may correct its own state afterwards (leg limits, angles ...), but what
+            # IK RETURNS is still the geometry of the requested poses - read now and again after a further call (no aliasing of the state)
+            L3o, _ = sp.IK(top_plate_pos=tm(Tp.copy()), bottom_plate_pos=tm(Bp.copy()))
+            L3 = np.array(L3o, dtype=float).reshape(-1)
+            corrected = sp.validation_error != ""
+            sp.IK(top_plate_pos=tm(neutral_now(model)), bottom_plate_pos=tm(model.B.copy()), protect=True)
+            L3b = np.array(L3o, dtype=float).reshape(-1)
         except Exception as e:
             import traceback
             ctx.clause("returns")
@@ -139,6 +147,13 @@ def run_case(case, ctx, bm):
         scj = max(1.0, tol.maxabs(bsw), tol.maxabs(tsw))
         if not (tol.maxabs(pubB - bsw) <= 1e-9 * scj and tol.maxabs(pubT - tsw) <= 1e-9 * scj):
             viol("ik.published_joints", "published_joints_after_ik/" + state, err=max(tol.maxabs(pubB - bsw), tol.maxabs(pubT - tsw)))
+        ctx.clause("ik.unprotected")
+        ctx.cls("unprotected_ik:" + ("corrected" if corrected else "accepted"))
+        e = max(tol.maxabs(L3 - Lw), tol.maxabs(L3b - Lw)) if L3.shape == (6,) else float("inf")
+        ctx.err("ik.unprotected", e / scp)
+        if not (e <= 1e-9 * scp):
+            viol("ik.unprotected", "ik_lengths_unprotected/%s/%s" % ("corrected" if corrected else "accepted", "at_return" if tol.maxabs(L3 - Lw) > 1e-9 * scp else "after_next_call"),
+                 err=e, got=L3, later=L3b, want=Lw)
         ctx.clause("ik.invariance")
         e = tol.maxabs(L2 - L1)
         ctx.err("ik.invariance", e / scp)
@@ -220,6 +235,10 @@ def run_case(case, ctx, bm):
                     key = "fk_miss/other_assembly_mode"
                 viol(clause, key,
                      pos_err_over_h=dist / h, rot_err=ang, len_err_over_h=le / h, published_pos_err_over_h=dist2 / h, rel=rel, state=state, where=where)
+
+
+def neutral_now(model):
+    return (model.B @ model.neutral_rel()).copy()
 
 
 def balanced_pose(model, g, rel):
